@@ -13,7 +13,9 @@ Canon(FS) == UNION { { StT(<<2, 3, 1, 2>>, <<1, 2, 3, 2, 1>>, f, cx), StT(<<3, 1
                  StT(<<2, 1, 3, 2, 2>>, <<1, 2, 2, 3, 2, 1>>, f, cx), StT(<<3, 2, 2>>, <<1, 2, 3, 1>>, f, cx)} : f \in FS, cx \in BOOLEAN }
 Q_TS == Small({1, 2}, {1}) \cup Canon({1})
 T_TS == Small({1, 2, 3}, {1, 4}) \cup Canon({1, 4})
-MC_MS == {}
+\* a few rectangular operator structures: the factories of the C03 statement (ones, zeros, eye) also take operator shapes
+MC_MS == { StM(<<2>>, <<3>>, <<1, 1>>, 1, FALSE), StM(<<3, 1>>, <<1, 2>>, <<1, 1, 1>>, 1, FALSE), StM(<<2, 3>>, <<3, 2>>, <<1, 1, 1>>, 1, TRUE),
+           StM(<<1, 2, 3>>, <<2, 2, 1>>, <<1, 1, 1, 1>>, 1, FALSE) }
 MC_SC == { [kind |-> "int", re |-> 2, im |-> 0], [kind |-> "int", re |-> -3, im |-> 0],
            [kind |-> "float", re |-> 2, im |-> 0], [kind |-> "bool", re |-> 1, im |-> 0],
            [kind |-> "npf64", re |-> -2, im |-> 0], [kind |-> "npf32", re |-> 2, im |-> 0],
